@@ -390,6 +390,17 @@ pub fn run(args: &Args) -> ! {
         std::fs::write(d.join("secret.txt"), "needle\n").unwrap();
         std::fs::write(d.join("locked/in.txt"), "needle\n").unwrap();
         let _ = std::os::unix::fs::symlink(d.join("gone"), d.join("dangling.lnk"));
+        // a directory link that points to its own directory (only followed under -L;
+        // nothing else can go wrong below `sub`)
+        std::fs::create_dir_all(d.join("sub")).unwrap();
+        std::fs::write(d.join("sub/s.txt"), "needle\n").unwrap();
+        let _ = std::os::unix::fs::symlink(".", d.join("sub/loop"));
+        // a preprocessor that fails without a word after copying its input
+        {
+            use std::os::unix::fs::PermissionsExt;
+            std::fs::write(d.join("silentfail.sh"), "#!/bin/sh\ncat \"$1\"\nexit 3\n").unwrap();
+            let _ = std::fs::set_permissions(d.join("silentfail.sh"), std::fs::Permissions::from_mode(0o755));
+        }
         let _ = Command::new("chmod").arg("000").arg(d.join("secret.txt")).status();
         let _ = Command::new("chmod").arg("000").arg(d.join("locked")).status();
         let cases: Vec<(&str, Vec<&str>, Vec<&str>, i32, bool)> = vec![
@@ -400,6 +411,11 @@ pub fn run(args: &Args) -> ! {
             ("dangling symlink named explicitly", vec!["needle", "dangling.lnk", "a.txt"], vec!["dangling.lnk"], 2, true),
             ("dangling symlink under -L", vec!["-L", "-j1", "needle"], vec!["dangling.lnk"], 2, true),
             ("missing path", vec!["needle", "nope.txt", "a.txt"], vec!["nope.txt"], 2, true),
+            ("symlink loop under -L", vec!["-L", "-j1", "needle", "sub", "a.txt"], vec!["loop"], 2, true),
+            ("symlink loop under -L, two threads", vec!["-L", "-j2", "needle", "sub", "a.txt"], vec!["loop"], 2, true),
+            ("symlink loop under -L, --no-ignore-messages", vec!["-L", "-j1", "--no-ignore-messages", "needle", "sub", "a.txt"], vec!["loop"], 2, true),
+            ("preprocessor fails silently after its output was read", vec!["-j1", "--pre", "./silentfail.sh", "needle", "a.txt", "sub/s.txt"], vec!["a.txt", "s.txt"], 2, false),
+            ("preprocessor fails silently, two threads", vec!["-j2", "--pre", "./silentfail.sh", "needle", "a.txt", "sub/s.txt"], vec!["a.txt", "s.txt"], 2, false),
             ("quiet with a match and an error", vec!["-q", "needle", "nope.txt", "a.txt"], vec![], 0, false),
             ("--no-messages keeps the status", vec!["--no-messages", "needle", "nope.txt", "a.txt"], vec![], 2, true),
             ("quiet --stats with a match and an error", vec!["-q", "--stats", "needle", "nope.txt", "a.txt"], vec![], 0, false),
@@ -547,7 +563,7 @@ pub fn run(args: &Args) -> ! {
     ev.set("faults_by_kind", json!(total.by_kind));
     ev.set(
         "rule",
-        "real rg binary on 3 trees (mixed / all files match / none matches) x 6 modes (standard, -c, -l, -q, --files, --json) x -j1 and -j2 (the latter under the replay scheduler's default schedule so that 'the k-th call' is well defined): the run is repeated under `strace -e inject=<syscall>:error=<E>:when=k` for EVERY k up to the number of such calls in the fault-free run, for openat->EACCES, openat->ENOENT, read->EIO, getdents64->EACCES, write->EPIPE; the injected call's path is recovered from the strace log (faults on start-up files are skipped). Decision table: a fault on a tree path => a diagnostic naming it on stderr, exit status 2 (0 allowed for -q with a match), the other files' results identical to the fault-free run; EPIPE on stdout => status 0, empty stderr, no further file opened (promptly). Plus: 61 invalid argument sets (regex, pattern file, engine, globs for -g / --iglob / --pre-glob with and without a preprocessor, types, encoding, numbers, sizes, sort / colour / hyperlink choices, unknown flags, under --files / -c / -l / --json) => status 2, a diagnostic and empty stdout; real faults as uid 65534 (mode-000 file and directory, dangling symlinks, missing paths, -q, -q --stats, -q --json and --no-messages variants); the stdout consumer closing after k bytes for every k up to 120 (400) and around every buffer boundary, in 11 variants (-j1/-j2, --line-buffered, --files, -c, --json, --pre cat at -j1 and -j2, -z with gzip files, transcoding) => status 0 and no diagnostic.",
+        "real rg binary on 3 trees (mixed / all files match / none matches) x 6 modes (standard, -c, -l, -q, --files, --json) x -j1 and -j2 (the latter under the replay scheduler's default schedule so that 'the k-th call' is well defined): the run is repeated under `strace -e inject=<syscall>:error=<E>:when=k` for EVERY k up to the number of such calls in the fault-free run, for openat->EACCES, openat->ENOENT, read->EIO, getdents64->EACCES, write->EPIPE; the injected call's path is recovered from the strace log (faults on start-up files are skipped). Decision table: a fault on a tree path => a diagnostic naming it on stderr, exit status 2 (0 allowed for -q with a match), the other files' results identical to the fault-free run; EPIPE on stdout => status 0, empty stderr, no further file opened (promptly). Plus: 61 invalid argument sets (regex, pattern file, engine, globs for -g / --iglob / --pre-glob with and without a preprocessor, types, encoding, numbers, sizes, sort / colour / hyperlink choices, unknown flags, under --files / -c / -l / --json) => status 2, a diagnostic and empty stdout; real faults as uid 65534 (mode-000 file and directory, dangling symlinks, a symlink loop under -L, a preprocessor failing silently, missing paths, -q, -q --stats, -q --json and --no-messages variants); the stdout consumer closing after k bytes for every k up to 120 (400) and around every buffer boundary, in 11 variants (-j1/-j2, --line-buffered, --files, -c, --json, --pre cat at -j1 and -j2, -z with gzip files, transcoding) => status 0 and no diagnostic.",
     );
     ev.set("samples", json!([{"tree": "mixed", "mode": "standard", "fault": "openat:error=EACCES:when=17 (d/c.txt)"}, {"pipe": "rg -j1 --line-buffered needle, consumer closes after 37 bytes"}]));
     ev.assume("strace's fault injector; setpriv to drop root so that mode 000 is effective");
